@@ -80,6 +80,26 @@ CHECKS = {
    text="TLC checks UseImpliesOwner/NoSharedOwner for two connections and two objects over every program of 8 steps (start, read part, read to end, read again, close); on the real code 300 (quick) / 4000 (thorough) seeded programs over 2-3 live connections (incl. the scripted hand-over and closes injected mid-message) are run in one goroutine so that sync.Pool reuse is deterministic; every byte returned is attributed to its connection and every pool event is validated: no use of an object the connection does not own, no put during an open use interval, no hand-out while owned.",
    note="Object identity is the address (never dereferenced); objects of closed connections are treated as dropped. Pool reuse affects what is reached, never the verdict.",
    design="6/C07"),
+ "C01": dict(
+   technique="TLA+ models of the message pipeline (spec/WSPair.tla: which window a compressed message depends on vs. which dictionary the receiver holds; WSTrim.tla and WSWindow.tla: exact transcriptions) checked by TLC incl. two deviation regressions; TLC-generated behaviours replayed into the real trim writer / sliding window; TLC-enumerated programs run on a real client/server pair",
+   text="TLC checks Fidelity/DictAgree for takeover, no-takeover and uncompressed directions with messages longer than the window, and every behaviour of the trim writer and sliding window against their invariants; all those unit behaviours (11110 + 3x~1100) are replayed into the real objects byte by byte; 4266 (quick) / 12798+ (thorough) programs x both directions run through the real handshake in all 3x3 modes and three thresholds with framing-boundary, window-crossing and >1 MiB sizes, comparing every delivery and the caller's buffers.",
+   note="DEFLATE itself is compress/flate on both ends (opaque).",
+   design="6/C01"),
+ "C02": dict(
+   technique="TLA+ frame codec (WSFrame!EncodeHeader/DecodeHeader model-checked for round trip and minimality) and sender grammar WSFrame!WireStep; TLC trace validation (TraceWire.tla) of the raw bytes each endpoint writes, tapped on the transport and parsed by an independent peer; WSConn model for the concurrent part",
+   text="For TLC-enumerated Write/Writer programs in both roles and under every agreement incl. the asymmetric ones (foreign offers/answers), an independent decoder reassembles and inflates the tapped stream with the agreed takeover flags and must recover exactly the written messages; TLC re-decodes every raw header and checks masking by role, mask-key refresh, minimal lengths, control-frame rules, fragment order, RSV bits and Close bodies over each frame sequence; concurrent executions add Ping/Close traffic.",
+   note="The independent decoder's header parsing is itself re-done by TLC on the raw bytes; traces longer than 400 frames are checked by the harness only.",
+   design="6/C02"),
+ "C18": dict(
+   technique="TLA+ model of the net.Conn adapter (spec/WSNetConn.tla: stream equality, EOF mapping, wrong type, idle vs active deadlines) checked by TLC; every behaviour up to a depth replayed on the real adapter with the timer branch read from hooks",
+   text="TLC checks StreamEq/EOFMap/IdleKeepsOpen on all behaviours of <=5 operations (0.56M states) and writes every enabled behaviour of <=3 (quick, 2891) / <=4 (thorough, 39797) operations with the observation each call must report; the harness replays them on a real adapter in both roles, both message types and 2-3 unit sizes.",
+   note="Which branch a deadline timer took comes from the NcTimerIdle/NcTimerActive hooks, not from timing.",
+   design="6/C18"),
+ "C19": dict(
+   technique="TLA+ model of wsjson (spec/WSJson.tla: one text message per value, 1007 on invalid documents, pooled-buffer aliasing) checked by TLC incl. a deviation regression; TLC-enumerated JSON shapes x targets x faults replayed through the real wsjson.Read/Write; bpool events validated by TracePool.tla",
+   text="The harness checks on the wire that Write emits exactly one text message with a JSON-equivalent document, and that Read consumes exactly one message and either yields the value encoding/json yields for the same bytes and target or fails with Close 1007 and a closed connection; earlier results are re-inspected after later reads on concurrent connections for aliasing of the pooled buffer.",
+   note="JSON codec fidelity is encoding/json's; the specification covers message/close/pool behaviour around it.",
+   design="6/C19"),
  "C03": dict(
    technique="TLA+ reference decoder (spec/WSRecv.tla) model-checked by TLC; TLC-generated behaviours (all frame streams up to a length bound) replayed into the real Conn and compared with the specification's predicted reaction",
    text="TLC checks the reference decoder automaton and enumerates every frame stream of <=3 (quick) / <=4 (thorough) letters over a 43-letter alphabet of valid and single-violation frames; each is serialised by an independent raw peer and fed to a real Conn in both roles, compression modes and transport chunkings; messages, Pongs, Close echo, failing read and absence of panics are compared with React/Run. Exhaustive within the alphabet and length bound.",
